@@ -132,10 +132,13 @@ def run(ck):
     f_dev = pool.submit(deviations, ck)
     f_gen = pool.submit(generate, ck, 60 if quick else 400)
     f_build = pool.submit(vlib.build_driver, "broadcast", ck.dir)
+    f_f3 = None if quick else pool.submit(f3_job, ck, [ck.seed, ck.seed + 7], 40)
     try:
         attacks, model_h, binary = f_dev.result(), f_gen.result(), f_build.result()
     except BaseException:
         f_design.cancel()
+        if f_f3:
+            f_f3.cancel()
         pool.shutdown(wait=True)
         raise
     opsfile = os.path.join(ck.dir, "ops-%d.ndjson" % ck.seed)
@@ -206,8 +209,10 @@ def run(ck):
                         facts["conflicts_after_restart"] += 1
             if e["ev"] == "Rebroadcast" and e["enc"]:
                 facts["rebroadcast_pub"] += 1
-    settle([f_design])
+    rest = settle([f_design] + ([f_f3] if f_f3 else []))
     pool.shutdown(wait=True)
+    if f_f3 and rest[1]:
+        facts.update(rest[1])
     if ck.violations:
         return
     ck.cov["event_counts"] = kinds
@@ -228,6 +233,43 @@ def run(ck):
                        "fsync makes the appended record durable; a torn record is a byte prefix",
                        "nothing is requested for an instance below a WAL purge bound already applied (the participant never returns below a stored certificate)",
                        "the publish point is the encoder call immediately preceding topic.Publish, cross-checked with a subscriber of the node's own topic"]
+
+
+def f3_job(ck, seeds, cycles):
+    """thorough tier: the public path Participant -> MessagesToSign -> F3.Broadcast -> filter -> WAL -> pubsub on a real F3 node, observed by a
+    second mocknet host; restarts with a moved EC head, cut calls, stale and re-signed requests (harness/drivers/broadcastf3)."""
+    binary = vlib.build_driver("broadcastf3", os.path.join(ck.dir, "f3"))
+    facts = dict(f3_requests=0, f3_refused=0, f3_wire=0, f3_cut=0, f3_starts=0, f3_refused_fresh_after_restart=0)
+    for s in seeds:
+        trace = os.path.join(ck.dir, "f3-%d.ndjson" % s)
+        rc, out = vlib.run_driver(binary, "TestF3Histories", env=dict(VERIF_OUT=trace, VERIF_SEED=str(s), VERIF_CYCLES=str(cycles), GOLOG_LOG_LEVEL="error"), timeout=900)
+        if rc != 0:
+            raise Inconclusive("end-to-end driver failed:\n" + out[-3000:])
+        _, ev = validate(ck, trace, "f3-seed%d" % s)
+        enc = set(e["m"]["sig"] for e in ev if e["ev"] == "F3Enc")
+        lifetime_first = False
+        for e in ev:
+            if e["ev"] == "F3Start":
+                facts["f3_starts"] += 1
+                lifetime_first = e["cycle"] > 0
+            elif e["ev"] == "F3Request":
+                facts["f3_requests"] += 1
+                if e["m"]["sig"] not in enc:
+                    facts["f3_refused"] += 1
+                    if e["kind"] == "fresh" and lifetime_first:
+                        facts["f3_refused_fresh_after_restart"] += 1
+                if e["kind"] == "fresh":
+                    lifetime_first = False
+            elif e["ev"] == "F3Wire":
+                facts["f3_wire"] += 1
+            elif e["ev"] == "F3Enc" and e["aborted"]:
+                facts["f3_cut"] += 1
+        ck.sample(dict(trace="f3-seed%d" % s, first_events=[{k: v for k, v in e.items() if k in ("ev", "m", "kind", "cut", "aborted", "cycle")} for e in ev[:10]]))
+    for need, what in (("f3_wire", "message observed at the second host"), ("f3_cut", "call cut between append and publish"),
+                       ("f3_refused_fresh_after_restart", "vote of a restarted participant (moved EC head) refused by the re-armed filter")):
+        if not facts[need]:
+            raise Inconclusive("vacuous end-to-end run: no %s" % what)
+    return facts
 
 
 def replay(ck, obj):
